@@ -476,6 +476,12 @@ func evalImportStmt(vm *r.VM, node *syntax.ImportStmt) error {
 			}
 			// After executing the module, find it again to get the module object
 			extModule = newModule
+		} else {
+			// the module is already registered (loaded before, or still being loaded):
+			// AllocateModule() records a dependency only when it creates a module, so
+			// record "current module -> extModule" here - otherwise the import that
+			// closes a cycle is never seen by CheckDepedency()
+			vm.AddModuleDependency(extModule)
 		}
 		// check circular dependency
 		if err2 := vm.CheckDepedency(extLibName); err2 != nil {
